@@ -161,6 +161,21 @@ template<int N> struct Rnt { template<class S> using G=manif::Rn<S,N>; template<
 typedef Rnt<1> R1t; typedef Rnt<3> R3t; typedef Rnt<5> R5t;
 
 template<class R,int N> Mat<typename R::S,N,1> vecn(R& rec,const std::string& p,int w){ Mat<typename R::S,N,1> v; for(int i=0;i<N;i++) v(i)=rec.var(p+std::to_string(i), WV[w][i%3]*(1+i/3)); return v; }
+// Bundle tag over a list of element tags (only what the structural harnesses need: make, maket, sizes)
+template<class... Tg> struct BSum; template<> struct BSum<>{ enum{DoF=0,Rep=0,P=0}; };
+template<class A_,class... Tg> struct BSum<A_,Tg...>{ enum{DoF=A_::DoF+BSum<Tg...>::DoF, Rep=A_::Rep+BSum<Tg...>::Rep, P=A_::P+BSum<Tg...>::P}; };
+template<class... Tg> struct Bnd { static const char* nm(){ return "Bundle"; } enum{DoF=BSum<Tg...>::DoF, Rep=BSum<Tg...>::Rep, P=BSum<Tg...>::P, H=0, A=0};
+  template<class S> using G=manif::Bundle<S, Tg::template G...>; template<class S> using T=manif::BundleTangent<S, Tg::template G...>;
+  template<class R,class V> static void fill(R&,const std::string&,int,V&,int){}
+  template<class R,class V,class A_,class... Rest> static void fillg(R& rec,const std::string& p,int w,V& c,int off,int idx){ auto e=A_::make(rec,p+std::to_string(idx)+"_",(w+idx)%4); c.template segment<A_::Rep>(off)=e.coeffs(); fillg_next<R,V,Rest...>(rec,p,w,c,off+A_::Rep,idx+1); }
+  template<class R,class V> static void fillg_next(R&,const std::string&,int,V&,int,int){}
+  template<class R,class V,class A_,class... Rest> static void fillg_next(R& rec,const std::string& p,int w,V& c,int off,int idx){ fillg<R,V,A_,Rest...>(rec,p,w,c,off,idx); }
+  template<class R,class V,class A_,class... Rest> static void fillt(R& rec,const std::string& p,int w,V& c,int off,int idx){ auto e=A_::maket(rec,p+std::to_string(idx)+"_",(w+idx)%4); c.template segment<A_::DoF>(off)=e.coeffs(); fillt_next<R,V,Rest...>(rec,p,w,c,off+A_::DoF,idx+1); }
+  template<class R,class V> static void fillt_next(R&,const std::string&,int,V&,int,int){}
+  template<class R,class V,class A_,class... Rest> static void fillt_next(R& rec,const std::string& p,int w,V& c,int off,int idx){ fillt<R,V,A_,Rest...>(rec,p,w,c,off,idx); }
+  template<class R> static G<typename R::S> make(R& rec,const std::string& p,int w){ typedef typename R::S S; Mat<S,Rep,1> c; fillg<R,Mat<S,Rep,1>,Tg...>(rec,p,w,c,0,0); return G<S>(c); }
+  template<class R> static T<typename R::S> maket(R& rec,const std::string& p,int w){ typedef typename R::S S; Mat<S,DoF,1> c; fillt<R,Mat<S,DoF,1>,Tg...>(rec,p,w,c,0,0); return T<S>(c); }
+};
 // Harness-side composition A*B written from the documented matrix-group structure only (quaternion / complex
 // product for the rotation coefficients, matrix product for the rest). Used to re-parametrise arguments.
 template<class Tg,class S,class GA,class GB> typename Tg::template G<S> hcompose(const GA& A,const GB& B){
